@@ -722,3 +722,192 @@ pub fn instantiate(t: &Template, lang: &str, suffix: &str) -> RuleSpec {
     is_util: t.is_util,
   }
 }
+
+// ---------------------------------------------------------------------------------------
+// random rule generator (JavaScript/TypeScript): rule trees over the documented operators
+// with local utilities that reference each other at various depths. Conservative by
+// construction (every rule has a positive matcher, references are acyclic and defined), so
+// ast-grep accepts them; acceptance is nevertheless part of what the checks compare.
+
+use crate::rng::Rng;
+
+#[derive(Clone, Debug)]
+enum RNode {
+  Kind(&'static str),
+  Pattern(&'static str),
+  Regex(&'static str),
+  Matches(String),
+  All(Vec<RNode>),
+  Any(Vec<RNode>),
+  Not(Box<RNode>),
+  Rel(&'static str, &'static str, Box<RNode>), // (has|inside|follows|precedes, stopBy, sub)
+}
+
+impl RNode {
+  /// YAML mapping entries of this rule object at the given indentation
+  fn yaml(&self, ind: usize) -> String {
+    let p = " ".repeat(ind);
+    match self {
+      RNode::Kind(k) => format!("{p}kind: {k}\n"),
+      RNode::Pattern(x) => format!("{p}pattern: {}\n", yaml_str(x)),
+      RNode::Regex(x) => format!("{p}regex: {}\n", yaml_str(x)),
+      RNode::Matches(u) => format!("{p}matches: {u}\n"),
+      RNode::All(v) | RNode::Any(v) => {
+        let key = if matches!(self, RNode::All(_)) { "all" } else { "any" };
+        let mut o = format!("{p}{key}:\n");
+        for c in v {
+          let body = c.yaml(ind + 2);
+          // turn the first line of the child's mapping into a list item
+          let mut lines = body.lines();
+          if let Some(first) = lines.next() {
+            o.push_str(&format!("{p}- {}\n", first.trim_start()));
+          }
+          for l in lines {
+            o.push_str(l);
+            o.push('\n');
+          }
+        }
+        o
+      }
+      RNode::Not(c) => format!("{p}not:\n{}", c.yaml(ind + 2)),
+      RNode::Rel(op, stop, c) => {
+        let mut o = format!("{p}{op}:\n");
+        if *stop != "neighbor" {
+          o.push_str(&format!("{p}  stopBy: {stop}\n"));
+        }
+        o.push_str(&c.yaml(ind + 2));
+        o
+      }
+    }
+  }
+}
+
+const R_KINDS: &[&str] = &["call_expression", "number", "string", "identifier", "binary_expression", "arguments", "expression_statement", "member_expression"];
+const R_PATTERNS: &[&str] = &["console.log($$$A)", "foo($A, $B)", "$A + $B", "$F($$$ARGS)", "$A == $B", "bar($$$X)"];
+
+fn r_atom(rng: &mut Rng, utils: &[String]) -> RNode {
+  match rng.below(10) {
+    0..=3 => RNode::Kind(*rng.pick(R_KINDS)),
+    4..=6 => RNode::Pattern(*rng.pick(R_PATTERNS)),
+    7 if !utils.is_empty() => RNode::Matches(rng.pick(utils).clone()),
+    8 if !utils.is_empty() => RNode::Matches(rng.pick(utils).clone()),
+    _ => RNode::Kind(*rng.pick(R_KINDS)),
+  }
+}
+
+fn r_tree(rng: &mut Rng, depth: usize, utils: &[String]) -> RNode {
+  if depth == 0 {
+    return r_atom(rng, utils);
+  }
+  match rng.below(12) {
+    0..=2 => r_atom(rng, utils),
+    3 | 4 => RNode::Any((0..rng.range(2, 3)).map(|_| r_tree(rng, depth - 1, utils)).collect()),
+    5 => {
+      let mut v = vec![RNode::Kind(*rng.pick(R_KINDS))];
+      for _ in 0..rng.range(1, 2) {
+        v.push(r_rel(rng, depth - 1, utils));
+      }
+      RNode::All(v)
+    }
+    6 => RNode::All(vec![RNode::Kind(*rng.pick(R_KINDS)), RNode::Not(Box::new(r_tree(rng, depth - 1, utils)))]),
+    _ => r_rel(rng, depth - 1, utils),
+  }
+}
+
+fn r_rel(rng: &mut Rng, depth: usize, utils: &[String]) -> RNode {
+  let op = *rng.pick(&["has", "has", "inside", "inside", "follows", "precedes"]);
+  let stop = *rng.pick(&["end", "end", "neighbor"]);
+  RNode::Rel(op, stop, Box::new(r_tree(rng, depth, utils)))
+}
+
+/// A positive top-level matcher plus random refinements.
+pub fn gen_random_rule(rng: &mut Rng, lang: &str, n: usize) -> RuleSpec {
+  let tag = if lang == "TypeScript" { "ts" } else { "js" };
+  // utilities: u0 .. uk, each may reference only earlier ones (acyclic)
+  let nutils = rng.range(0, 4);
+  let mut names: Vec<String> = vec![];
+  let mut utils: Vec<(String, String)> = vec![];
+  for i in 0..nutils {
+    let name = format!("u{i}");
+    let body = match rng.below(3) {
+      // a util with its own positive kind and a refinement that may reach other utils
+      0 => RNode::All(vec![RNode::Kind(*rng.pick(R_KINDS)), r_rel(rng, 1, &names)]),
+      1 => RNode::Any(vec![r_atom(rng, &names), RNode::Kind(*rng.pick(R_KINDS)), r_atom(rng, &names)]),
+      _ => RNode::All(vec![RNode::Kind(*rng.pick(R_KINDS)), RNode::Rel("has", "end", Box::new(RNode::Any(vec![r_atom(rng, &names), RNode::Kind(*rng.pick(R_KINDS))])))]),
+    };
+    utils.push((name.clone(), body.yaml(4)));
+    names.push(name);
+  }
+  let top_pattern = if rng.chance(0.6) { Some(*rng.pick(R_PATTERNS)) } else { None };
+  let mut parts: Vec<RNode> = vec![];
+  match top_pattern {
+    Some(p) => parts.push(RNode::Pattern(p)),
+    None => parts.push(RNode::Kind(*rng.pick(&["call_expression", "binary_expression", "expression_statement"]))),
+  }
+  for _ in 0..rng.range(0, 2) {
+    parts.push(match rng.below(3) {
+      0 if !names.is_empty() => RNode::Rel(*rng.pick(&["has", "inside"]), "end", Box::new(RNode::Matches(rng.pick(&names).clone()))),
+      1 => RNode::Not(Box::new(r_tree(rng, 1, &names))),
+      _ => r_rel(rng, 1, &names),
+    });
+  }
+  let rule = RNode::All(parts).yaml(2);
+  // constraints / transform / fix only over variables the top pattern certainly binds
+  let vars: Vec<&str> = match top_pattern {
+    Some("foo($A, $B)") | Some("$A + $B") | Some("$A == $B") => vec!["A", "B"],
+    _ => vec![],
+  };
+  let mut constraints = vec![];
+  let mut transform = vec![];
+  let mut fix = None;
+  if !vars.is_empty() {
+    if rng.chance(0.5) {
+      for v in &vars {
+        if rng.chance(0.6) {
+          let c = match rng.below(3) {
+            0 => RNode::Kind(*rng.pick(&["number", "identifier", "string"])),
+            1 => RNode::Not(Box::new(RNode::Kind("string"))),
+            _ => RNode::Any(vec![RNode::Kind("number"), RNode::Kind("identifier"), RNode::Pattern("$X")]),
+          };
+          constraints.push((v.to_string(), c.yaml(4)));
+        }
+      }
+    }
+    if rng.chance(0.5) {
+      transform.push(("UP".to_string(), "    convert:\n      source: $A\n      toCase: upperCase\n".to_string()));
+      if rng.chance(0.5) {
+        transform.push(("PRE".to_string(), "    replace:\n      source: $UP\n      replace: \"^\"\n      by: P_\n".to_string()));
+      }
+      if rng.chance(0.3) {
+        transform.push(("SUB".to_string(), "    substring:\n      source: $B\n      startChar: 0\n      endChar: 3\n".to_string()));
+      }
+    }
+    if rng.chance(0.6) {
+      let mut f = String::from("swapped($B, $A");
+      for (k, _) in &transform {
+        f.push_str(&format!(", ${k}"));
+      }
+      f.push(')');
+      fix = Some(f);
+    }
+  }
+  RuleSpec {
+    id: format!("gen-{tag}-{n}"),
+    language: lang.to_string(),
+    severity: Some(rng.pick(&["hint", "info", "warning", "error"]).to_string()),
+    message: Some(if vars.is_empty() { "generated rule".to_string() } else { "generated rule on $A and $B".to_string() }),
+    note: None,
+    rule,
+    utils,
+    constraints,
+    transform,
+    rewriters: vec![],
+    fix,
+    files: None,
+    ignores: None,
+    section_order: (0..SECTIONS.len()).collect(),
+    valid: vec![],
+    invalid: vec![],
+    is_util: false,
+  }
+}
